@@ -48,6 +48,30 @@ theorem C06_wasm_swap_same_layout (sk : Sk) (old prewarmed : List Nat) (h : old.
   rw [hlen] at this
   rw [this]
 
+/-- **one migration model serves both runtimes**: on a storage of the old layout's size, with the prewarmed `dsp` state the
+CLI hands over (all zeros, any length up to the new size: `main` touches no `dsp` state), `WasmDspRuntime::try_hot_swap`
+computes exactly the storage `Machine::new_resume` computes, for EVERY pair of layouts (so `Model/LiveCoding.lean: swapState`,
+defined with `vmResume`, is the WASM swap as well) -/
+theorem C06_wasm_swap_is_vm_resume (o n : Sk) (old : List Nat) (k : Nat) (hk : k ≤ n.size) (hlen : old.length = o.size) :
+    wasmSwap o n old (List.replicate k 0) = vmResume o n old := by
+  have hnext : resizeTo (List.replicate k 0) n.size = List.replicate n.size 0 := by
+    simp only [resizeTo, List.take_replicate, List.length_replicate, List.replicate_append_replicate]
+    congr 1; omega
+  cases hm : o.matches n with
+  | true =>
+    have hsz := matches_size o n hm
+    have hbp : buildPlan o n = none := by simp [buildPlan, hm]
+    simp only [wasmSwap, cliPlan, hbp, vmResume, hm, List.isEmpty_cons, Bool.and_false, Bool.false_eq_true, if_false, hnext,
+      List.all_cons, List.all_nil, Bool.and_true, Patch.inBounds, List.length_replicate, hlen, hsz]
+    simp only [Nat.zero_add, Nat.le_refl, decide_true, Bool.and_self, if_true, applyPatches, List.foldl]
+    have := applyPatch_whole old (List.replicate n.size 0) (by simp [hlen, hsz])
+    simp only [List.length_replicate] at this
+    rw [this]
+  | false =>
+    have hbp : buildPlan o n = some ⟨n.size, takeDiff o n⟩ := by simp [buildPlan, hm]
+    simp only [wasmSwap, cliPlan, hbp, vmResume, hm, Bool.false_and, Bool.false_eq_true, if_false, hnext, applyPlan?,
+      List.length_replicate]
+
 end Mimium.HotSwap
 
 namespace Mimium.Core
